@@ -309,7 +309,9 @@ class HybridClass(metaclass=MetaHybridClass):
         defaults = {}
         for field in obj._XoStruct._fields:
             try:
-                defaults[field.name] = field.get_default()
+                # keyed by the python-side name, which is what is looked up below
+                pyname = obj._rename.get(field.name, field.name)
+                defaults[pyname] = field.get_default()
             except (TypeError, ValueError):
                 # The above can fail with different error types
                 # if a field type is dynamic.
